@@ -53,8 +53,11 @@ def run_property(pid, tier, seed, replay=None):
     samples = []
     if builds["harness"][0] and builds["modeldrv"][0]:
         timeout = getattr(mod, "CASE_TIMEOUT", 600)
-        impl_out = run_driver(IMPLDRV, cases, timeout=timeout)
-        model_out = run_driver(MODELDRV, cases, timeout=max(timeout, 300))
+        import lib as _lib
+        _lib.ENV["IMPLDRV_CASE_SECS"] = str(getattr(mod, "CASE_SECS", 5))
+        per_shard = getattr(mod, "PER_SHARD", 100)
+        impl_out = run_driver(IMPLDRV, cases, timeout=timeout, per_shard=per_shard)
+        model_out = run_driver(MODELDRV, cases, timeout=max(timeout, 300), per_shard=per_shard)
         rel_out = None
         if tier == "thorough" and getattr(mod, "RELEASE_TOO", False):
             rel_out = run_driver(IMPLDRV_REL, cases, timeout=timeout)
